@@ -296,3 +296,98 @@ def ensure_internal_node(spec, g, menu='prob'):
                 spec['terms'][name] = {'type': [lab], 'weights': gen_weights(g, [dom_size(spec['domains'][lab])], menu)}
             r['edges'].append({'label': name, 'att': [len(r['nodes']) - 1], 'id': None})
     return spec
+
+
+def force_recursion(spec, g, nonlinear=False):
+    """make the start symbol's SCC cyclic: add S -> (terminals) S [S] over S's own external nodes"""
+    st = spec['nts']['S']['type']
+    nodes = [{'label': nl, 'id': None} for nl in st]
+    k = len(st)
+    edges = []
+    # child S instances hang off fresh internal nodes linked to the externals by binary terminals where possible
+    reps = 2 if nonlinear else 1
+    for rep in range(reps):
+        att = []
+        for i, nl in enumerate(st):
+            nodes.append({'label': nl, 'id': None})
+            j = len(nodes) - 1
+            att.append(j)
+            ts = [n for n, t in spec['terms'].items() if t['type'] == [nl, nl]]
+            if not ts:
+                name = 'b_' + nl
+                sz = dom_size(spec['domains'][nl])
+                spec['terms'][name] = {'type': [nl, nl], 'weights': gen_weights(g, [sz, sz], 'small')}
+                ts = [name]
+            edges.append({'label': g.choice(sorted(ts)), 'att': [i, j], 'id': None})
+        edges.append({'label': 'S', 'att': att, 'id': None})
+    if not st:
+        ts = [n for n, t in spec['terms'].items() if t['type'] == []]
+        if not ts:
+            spec['terms']['c0'] = {'type': [], 'weights': round(0.1 + 0.3 * g.random(), 3)}
+            ts = ['c0']
+        edges.append({'label': g.choice(sorted(ts)), 'att': [], 'id': None})
+    spec['rules'].insert(g.randrange(len(spec['rules']) + 1), {'lhs': 'S', 'nodes': nodes, 'ext': list(range(k)), 'edges': edges})
+    return spec
+
+
+def add_diag_terminal(spec, g, menu='small'):
+    """a binary terminal stored as a diagonal pattern (like the identity factors the library itself creates), used in a random rule"""
+    labs = sorted(spec['domains'])
+    nl = g.choice(labs)
+    sz = dom_size(spec['domains'][nl])
+    if sz < 2:
+        return spec
+    vals = [v if not isinstance(v, list) else v[0] for v in gen_weights(g, [sz], menu)]
+    if g.random() < 0.5:
+        vals = [1.0] * sz
+    name = 'eq_' + nl
+    dense = [[vals[i] if i == j else 0.0 for j in range(sz)] for i in range(sz)]
+    spec['terms'][name] = {'type': [nl, nl], 'weights': dense, 'pattern': {'physical': vals, 'vaxes': [0, 0], 'default': 0.0}}
+    # use it: in some rule with two nodes of that label (or add one)
+    rules = [r for r in spec['rules'] if sum(1 for v in r['nodes'] if v['label'] == nl) >= 1]
+    if not rules:
+        return spec
+    r = g.choice(rules)
+    idx = [i for i, v in enumerate(r['nodes']) if v['label'] == nl]
+    if len(idx) < 2:
+        r['nodes'].append({'label': nl, 'id': None})
+        idx.append(len(r['nodes']) - 1)
+    a, b = g.sample(idx, 2)
+    r['edges'].append({'label': name, 'att': [a, b], 'id': None})
+    return spec
+
+
+def add_closure_nt(spec, g, menu='small'):
+    """T(i,j) -> eq(i,j) | T(i,k) a(k,j) with eq stored as a diagonal pattern: the iterate of T starts sparse (diagonal)
+    and becomes dense, i.e. its physical layout changes between solver iterations; S gets a rule that uses T"""
+    if 'T' in spec['nts']:
+        return spec
+    nl = g.choice(sorted(spec['domains']))
+    sz = dom_size(spec['domains'][nl])
+    if sz < 2:
+        spec['domains'][nl] = {'kind': 'range', 'size': 2}
+        sz = 2
+        for t in spec['terms'].values():
+            t['weights'] = gen_weights(g, sizes_of(spec, t['type']), menu)
+            t.pop('pattern', None)
+    ones = g.random() < 0.6
+    vals = [1.0] * sz if ones else [round(0.2 + 0.6 * g.random(), 3) for _ in range(sz)]
+    spec['terms']['eqT'] = {'type': [nl, nl], 'weights': [[vals[i] if i == j else 0.0 for j in range(sz)] for i in range(sz)],
+                            'pattern': {'physical': vals, 'vaxes': [0, 0], 'default': 0.0}}
+    spec['terms']['aT'] = {'type': [nl, nl], 'weights': gen_weights(g, [sz, sz], menu)}
+    spec['nts']['T'] = {'type': [nl, nl]}
+    mk = lambda: [{'label': nl, 'id': None}, {'label': nl, 'id': None}]
+    spec['rules'].append({'lhs': 'T', 'nodes': mk(), 'ext': [0, 1], 'edges': [{'label': 'eqT', 'att': [0, 1], 'id': None}]})
+    spec['rules'].append({'lhs': 'T', 'nodes': mk() + [{'label': nl, 'id': None}], 'ext': [0, 1],
+                          'edges': [{'label': 'T', 'att': [0, 2], 'id': None}, {'label': 'aT', 'att': [2, 1], 'id': None}]})
+    if g.random() < 0.5:
+        spec['rules'][-2], spec['rules'][-1] = spec['rules'][-1], spec['rules'][-2]
+    st = spec['nts']['S']['type']
+    nodes = [{'label': x, 'id': None} for x in st]
+    idx = [i for i, x in enumerate(st) if x == nl]
+    while len(idx) < 2:
+        nodes.append({'label': nl, 'id': None})
+        idx.append(len(nodes) - 1)
+    a, b = g.sample(idx, 2)
+    spec['rules'].append({'lhs': 'S', 'nodes': nodes, 'ext': list(range(len(st))), 'edges': [{'label': 'T', 'att': [a, b], 'id': None}]})
+    return spec
